@@ -525,7 +525,9 @@ class Interp:
         env = {}
         for p_, a in zip(f.params, args):
             ct = (p_.get('ct') or '')
-            if ct.endswith('&') and not ct.startswith('const ') and isinstance(a, P) and isinstance(self.mem.get(a.r), list) and ct.rstrip('& ').strip() in WIDTH:
+            if isinstance(a, tuple) and len(a) == 2 and a[0] in ('lref', 'ref'):
+                env[p_['d']] = a                # a reference bound by the call site (scalar or string lvalue of the caller)
+            elif ct.endswith('&') and not ct.startswith('const ') and isinstance(a, P) and isinstance(self.mem.get(a.r), list) and ct.rstrip('& ').strip() in WIDTH:
                 env[p_['d']] = ('ref', a)       # T &x with T a scalar: reads and writes go to the caller's cell
             else:
                 env[p_['d']] = wrap(a, ct)
@@ -635,12 +637,36 @@ class Interp:
                 tg = [dyn]
         if tg and (name in self.inline or '*' in self.inline):
             g = tg[0]
+            arg_ids = list(st.get('args', []))
+            if len(arg_ids) == len(g.params):
+                for i_, (p_, aid) in enumerate(zip(g.params, arg_ids)):
+                    pct = (p_.get('ct') or '')
+                    base_t = pct.rstrip('& ').strip()
+                    if pct.endswith('&') and not pct.endswith('&&') and not pct.startswith('const ') and (base_t in WIDTH or base_t.startswith(('std::basic_string', 'std::__cxx11::basic_string'))):
+                        if isinstance(args[i_], (int, S)) or args[i_] in (None, 'uninit'):
+                            try:
+                                loc = self.lv(f, aid, env)
+                            except AnalysisBroken:
+                                continue
+                            if loc[0] == 'var':
+                                self._tmp += 1
+                                nm_ = 'cell#%d' % self._tmp
+                                self.mem[nm_] = [env.get(loc[1])]
+                                env[loc[1]] = ('ref', P(nm_, 0))
+                                args[i_] = ('ref', P(nm_, 0))
+                            elif loc[0] in ('dict', 'field', 'mem', 'global'):
+                                if loc[0] == 'field':
+                                    loc = ('dict', self.this, loc[1])       # the callee runs with its own `this`
+                                args[i_] = ('lref', loc)
             this = self.record_of(objv)
             if objv is not None and this is None:
                 raise AnalysisBroken('%s: member call %s on an object the replay does not hold (%s)' % (f.short, name, f.loc(st['i'])))
             if st['k'] == 'CXXOperatorCallExpr' and 'obj' not in st and len(args) == len(g.params) + 1:
                 args = args[1:]
             return self.call(g, args, this=this)
+        if name == 'operator=' and 'obj' in st and cls_ and cls_ not in self.prog.classes and len(args) == 1:
+            self.write(f, st, self.lv(f, st['obj'], env), args[0], env)         # a value type of a library: assignment copies the (opaque) value
+            return objv
         raise AnalysisBroken('%s: call of %s at %s is neither a hook nor inlined' % (f.short, name or '?', f.loc(st['i'])))
 
     # ---- statements ----------------------------------------------------------
@@ -973,6 +999,15 @@ class Interp:
             for c in st.get('caps', ()):
                 if c.get('this'):
                     this = self.this
+                elif c.get('d') is not None and c.get('ref') and c['d'] in env and self.record_of(env[c['d']]) is None and not isinstance(env[c['d']], (list, dict)):
+                    # captured by reference: the variable lives in a cell both the enclosing function and the closure refer to
+                    cur = env[c['d']]
+                    if not (isinstance(cur, tuple) and len(cur) == 2 and cur[0] in ('ref', 'lref')):
+                        self._tmp += 1
+                        nm_ = 'cell#%d' % self._tmp
+                        self.mem[nm_] = [cur]
+                        env[c['d']] = ('ref', P(nm_, 0))
+                    caps[c['d']] = env[c['d']]
                 elif c.get('d') is not None:
                     v = self.ev(f, c['init'], env) if c.get('init') is not None else env.get(c['d'])
                     r_ = self.record_of(v)
